@@ -66,6 +66,12 @@ class DUT(Module):
             self.s = axi_lite.AXILiteInterface(data_width=mw, address_width=ADRW)
             self.submodules.dut = Wishbone2AXILite(self.m, self.s, base_address=p.get("base", 0))
             self.mkind, self.skind = "wb", "axil"
+        elif kind == "ahb2wb":
+            from litex.soc.interconnect import ahb
+            self.m = ahb.AHBInterface(data_width=mw, address_width=ADRW)
+            self.s = wishbone.Interface(data_width=mw, adr_width=ADRW - log2_int(mw//8))
+            self.submodules.dut = ahb.AHB2Wishbone(self.m, self.s)
+            self.mkind, self.skind = "ahb", "wb"
         elif kind == "axil2csr":
             self.m = axi_lite.AXILiteInterface(data_width=mw, address_width=ADRW)
             self.s = csr_bus.Interface(data_width=mw, address_width=ADRW - log2_int(mw//8))
@@ -110,6 +116,14 @@ class BridgeHarness(Harness):
         self.mk, self.sk = d.mkind, d.skind
         if self.mk == "axil":
             self.M = port(D, d.m, ("aw", "w", "b", "ar", "r"))
+        elif self.mk == "ahb":
+            self.M = {n: D.i(getattr(d.m, n)) for n in ("addr", "burst", "mastlock", "prot", "size", "trans", "wdata", "write", "sel", "rdata", "readyout", "resp")}
+            # AHB operations: (write, byte address, size, mark), address aligned to the transfer size
+            self.ahbops = [(wr, w*self.nl + off, sz, mk) for wr in (0, 1) for w in self.words for sz in range(log2_int(self.nl) + 1)
+                           for off in range(0, self.nl, 1 << sz) for mk in (self.marks if wr else (0,))
+                           if w == self.words[0] or sz == log2_int(self.nl)]
+            # address phases presented during a data phase (pipelined): a reduced menu
+            self.ahbnext = [op for op in self.ahbops if op[2] == log2_int(self.nl) or (op[1] % self.nl == 1 and op[2] == 0)]
         else:
             self.M = {n: D.i(getattr(d.m, n)) for n in ("cyc", "stb", "we", "adr", "dat_w", "sel", "cti", "bte", "ack", "err", "dat_r")}
         if self.sk == "axil":
@@ -167,6 +181,12 @@ class BridgeHarness(Harness):
             else:
                 rc = [("r", 0), ("r", 1)]
             mch = [(a, b) for a in wc for b in rc if self.conc or not (a[0] == "start" and b[0] == "start")]
+        elif self.mk == "ahb":
+            if wr[0] == "D":
+                # data phase: optionally present the address phase of the next transfer (held once presented)
+                mch = [(("hold", wr[2]), ("-",))] if wr[2] is not None else [(("hold", None), ("-",))] + [(("hold", op), ("-",)) for op in self.ahbnext]
+            else:
+                mch = [(("idle",), ("-",))] + [(("ahb", op), ("-",)) for op in self.ahbops]
         else:
             # wishbone master: one operation at a time
             if wr[0] == "A":
@@ -223,6 +243,15 @@ class BridgeHarness(Harness):
     def wdata(self, op):
         return sum(lane_byte(op[2], op[0], l) << (8*l) for l in range(self.nl))
 
+    def ahb_wdata(self, op):
+        # AHB write data sits on the byte lanes the address selects; other lanes carry a different pattern
+        word = op[1]//self.nl
+        return sum(lane_byte(op[3], word, l) << (8*l) for l in range(self.nl))
+
+    def ahb_lanes(self, op):
+        off = op[1] % self.nl
+        return range(off, off + (1 << op[2]))
+
     def drive(self, v, env, ch):
         M = self.M
         if self.mk == "axil":
@@ -245,6 +274,19 @@ class BridgeHarness(Harness):
                 if arv:
                     v[M["ar"]["valid"]], v[M["ar"]["addr"]] = 1, self.base + word*self.nl
                 v[M["r"]["ready"]] = rr
+        elif self.mk == "ahb":
+            c = ch[0][0]
+            wr = env[0]
+            adr_op = c[1] if c[0] in ("ahb", "hold") else None
+            v[M["sel"]] = 1
+            v[M["burst"]] = v[M["mastlock"]] = v[M["prot"]] = 0
+            if adr_op is not None:
+                v[M["trans"]], v[M["addr"]], v[M["size"]], v[M["write"]] = 2, self.base + adr_op[1], adr_op[2], adr_op[0]
+            else:
+                v[M["trans"]], v[M["addr"]], v[M["size"]], v[M["write"]] = 0, (1 << ADRW) - 1, 2, 1
+            v[M["wdata"]] = (1 << self.mw) - 1
+            if wr[0] == "D" and wr[1][0]:
+                v[M["wdata"]] = self.ahb_wdata(wr[1])
         else:
             op = self.wbop(env, ch)
             if op is None:
@@ -478,6 +520,39 @@ class BridgeHarness(Harness):
                     rd2 = ("R", word, allowed)
             else:
                 rd2 = ("I",)
+        elif self.mk == "ahb":
+            c = ch[0][0]
+            rd2 = ("I",)
+            ready = v[M["readyout"]]
+            if v[M["resp"]]:
+                return env, ("resp.err", "AHB error response from an error-free memory"), 0
+            if wr[0] != "D":
+                if not ready:
+                    return env, ("ahb.ready_idle", "HREADYOUT low although no transfer is in its data phase"), 0
+                wr2 = ("D", c[1], None) if c[0] == "ahb" else ("I",)
+                active = c[0] == "ahb"
+            else:
+                active = True
+                op = wr[1]
+                if ready:
+                    word = op[1]//self.nl
+                    if op[0]:
+                        rl = list(ref)
+                        for l in self.ahb_lanes(op):
+                            rl[(word*self.nl + l) % self.nbytes] = lane_byte(op[3], word, l)
+                        ref2 = tuple(rl)
+                        self.cov["writes"] += 1
+                    else:
+                        got = v[M["rdata"]]
+                        for l in self.ahb_lanes(op):
+                            exp = ref[(word*self.nl + l) % self.nbytes]
+                            if (got >> (8*l)) & 0xFF != exp:
+                                return env, ("read.value", f"AHB read addr={op[1]:#x} size={op[2]}: lane {l} returns {(got >> (8*l)) & 0xFF:#x}, flat memory holds {exp:#x}"), 0
+                        self.cov["reads"] += 1
+                    flags |= PROGRESS
+                    wr2 = ("D", c[1], None) if c[1] is not None else ("T",)
+                else:
+                    wr2 = ("D", op, c[1])
         else:
             op = self.wbop(env, ch)
             ack, er = v[M["ack"]], v[M["err"]]
@@ -556,6 +631,9 @@ reg("Wishbone2AXILite(32bit,base=0x20)", "quick", kind="wb2axil", mw=32, nbytes=
 reg("Wishbone2AXILite(64bit,base=0x10)+wide_base", "quick", kind="wb2axil", mw=64, nbytes=16, strbs=(0xFF, 0x02), marks=(1,), base=0x10)
 reg("Wishbone2AXILite(64bit)", "quick", kind="wb2axil", mw=64, nbytes=16, strbs=(0xFF, 0x02, 0x80), marks=(1,))
 reg("AXILite2Wishbone(64bit,base=0x10)", "quick", kind="axil2wb", mw=64, nbytes=16, strbs=(0xFF, 0x02), marks=(1,), base=0x10)
+reg("AHB2Wishbone(32bit)", "quick", kind="ahb2wb", mw=32, nbytes=8, marks=(1,))
+reg("AHB2Wishbone(32bit),2marks,lat2", "thorough", kind="ahb2wb", mw=32, nbytes=8, marks=(1, 2), maxlat=2)
+reg("AHB2Wishbone(64bit)", "thorough", kind="ahb2wb", mw=64, nbytes=16, marks=(1,), words=(0, 1))
 reg("AXILite2CSR(32bit)", "quick", kind="axil2csr", mw=32, nbytes=8, strbs=(0b1111,), marks=(1, 2))
 reg("AXILite2CSR(32bit,register)", "thorough", kind="axil2csr", mw=32, nbytes=8, strbs=(0b1111,), marks=(1, 2), register=True)
 reg("AXILite2CSR(32bit)+partial_strb", "quick", kind="axil2csr", mw=32, nbytes=8, strbs=(0b1111, 0b0001), marks=(1, 2))
